@@ -255,16 +255,24 @@ Definition step_compile (i : nat) (iv : inv) (fs : fsys) (p : proc) : fsys * pro
      CInit     `mage -init`: creates magefile.go in the directory (O_EXCL), nothing shared is touched
    The run-only system above ([inv], [step], [run], [alone]) is the restriction of this one to CRun. *)
 Inductive cmd := CRun | CCompile | CClean | CInit.
-Record ginv := { g_inv : inv; g_cmd : cmd }.
-Definition as_run (iv : inv) : ginv := {| g_inv := iv; g_cmd := CRun |}.
+(* [g_sub]: the directory <dir>/magefiles when it exists.  Invoke (mage/main.go:327-347) calls
+   removeStaleMainfile(<dir>/magefiles) BEFORE it decides which of the two directories it uses: an invocation in <dir>
+   removes the generated file of <dir>/magefiles at start-up even when it then works in <dir>. *)
+Record ginv := { g_inv : inv; g_cmd : cmd; g_sub : option dir }.
+Definition as_run (iv : inv) : ginv := {| g_inv := iv; g_cmd := CRun; g_sub := None |}.
+Definition remove_sub (g : ginv) (p : proc) (r : fsys * proc) : fsys * proc :=
+  match p_pc p, g_sub g with
+  | PStale, Some d => (match f_main (fst r) d with Some _ => upd_main (fst r) d None | None => fst r end, snd r)
+  | _, _ => r
+  end.
 
 (* what mage itself prints when a command that runs nothing succeeds ("<cache> cleaned", "magefile.go created") is,
    like every other output, a value the harness supplies: [behave "" D args], the "program" being none *)
 Definition gstep (i : nat) (g : ginv) (fs : fsys) (p : proc) : fsys * proc :=
   let iv := g_inv g in
   match g_cmd g with
-  | CRun => step i iv fs p
-  | CCompile => step_compile i iv fs p
+  | CRun => remove_sub g p (step i iv fs p)
+  | CCompile => remove_sub g p (step_compile i iv fs p)
   | CClean =>
       match p_pc p with
       | PDone => (fs, p)
